@@ -20,6 +20,7 @@ import (
 	"encoding/hex"
 	"fmt"
 	"net"
+	"sort"
 	"strings"
 	"time"
 
@@ -30,6 +31,7 @@ import (
 	"github.com/semihalev/sdns/internal/verif/vlib"
 	"github.com/semihalev/sdns/internal/wire"
 	"github.com/semihalev/sdns/middleware"
+	"github.com/semihalev/sdns/middleware/as112"
 	"github.com/semihalev/sdns/middleware/cache"
 	"github.com/semihalev/sdns/middleware/edns"
 	"github.com/semihalev/sdns/server"
@@ -40,7 +42,7 @@ func exec(op string) vlib.Res {
 	if len(f) < 2 {
 		return vlib.Res{Impl: "bad-op"}
 	}
-	if f[1] == "new" && f[0] != "e2e" && f[0] != "lad" {
+	if f[1] == "new" && f[0] != "e2e" && f[0] != "lad" && f[0] != "rl" && f[0] != "as" {
 		return vlib.Res{Impl: "ok", Oracle: "-"}
 	}
 	switch f[0] {
@@ -62,6 +64,14 @@ func exec(op string) vlib.Res {
 		}
 	case "lad":
 		return execLad(f)
+	case "ed":
+		if f[1] == "serve" {
+			return execED(kv(f[2:]))
+		}
+	case "rl":
+		return execRL(f)
+	case "as":
+		return execAS(f)
 	}
 	return vlib.Res{Impl: "bad-op"}
 }
@@ -466,6 +476,63 @@ func execLad(f []string) vlib.Res {
 		a := kv(f[2:])
 		startLive(liveCfg{handlers: []string{"recovery", "edns", "cache"}, rfc8198: a["r8198"] == "1", rfc9520: true})
 		return vlib.Res{Impl: "ok", Oracle: "-"}
+	case "hdr":
+		// header word of a reply built by each wire builder (flat hit, cut, cached
+		// failure) for an arbitrary request flag word on a slab poisoned with p,
+		// next to the decoded path's header for the same question
+		if live == nil || live.Cache == nil {
+			return vlib.Res{Impl: "no-live"}
+		}
+		a := kv(f[2:])
+		opSeq++
+		n := opSeq
+		fl := uint16(vlib.Atoi(a["fl"]))
+		cd := fl&0x10 != 0
+		scn := map[string]string{"exact": "pos", "exactad": "sig", "cut": "pos.gone", "fail": "pos"}[a["kind"]]
+		tmpl := scn + "." + a["nm"] + "-@.zt."
+		var names [3]string
+		for p := 0; p < 3; p++ {
+			names[p] = strings.ReplaceAll(tmpl, "@", string(markers[p]))
+		}
+		plain := qspec{name: tmpl, qtype: dns.TypeA, qclass: dns.ClassINET, id: 5, rd: true, cd: cd, edns: true, usz: 4096, do: true}
+		switch a["kind"] {
+		case "exact", "exactad":
+			for p := 0; p < 3; p++ {
+				rawSettled(plain.build(markers[p], nil, nil), remoteFor(p, "tcp", false, 60000+n))
+			}
+		case "cut":
+			seedState(map[string]string{"cut": "1"}, names, dns.TypeA, cd)
+		case "fail":
+			seedState(map[string]string{"fail": "q"}, names, dns.TypeA, cd)
+		}
+		build := func(marker byte) []byte {
+			q := plain
+			q.do = a["do"] == "1"
+			b := q.build(marker, nil, nil)
+			b[2], b[3] = byte(fl>>8), byte(fl)
+			return b
+		}
+		old := poisonByte
+		poisonByte = byte(vlib.Atoi(a["p"]))
+		defer func() { poisonByte = old }()
+		remote := remoteFor(0, "udp", false, n)
+		word := func(r reply) string {
+			if len(r.raw) < 4 {
+				return r.class
+			}
+			return fmt.Sprint(int(r.raw[2])<<8 | int(r.raw[3]))
+		}
+		rc := serve(2, build('c'), remote, "udp")
+		rb := serve(1, build('b'), remote, "udp")
+		ws := "decline"
+		if rc.inline == "inline" {
+			ws = word(rc)
+		}
+		or := "ok"
+		if word(rc) != word(rb) {
+			or = fmt.Sprintf("FAIL sig=c05/diff/flags header word inline=%s msg=%s", word(rc), word(rb))
+		}
+		return vlib.Res{Impl: fmt.Sprintf("wire=%s msg=%s", ws, word(rb)), Oracle: or, Tags: "nt"}
 	case "run":
 		if live == nil || live.Cache == nil {
 			return vlib.Res{Impl: "no-live"}
@@ -478,7 +545,13 @@ func execLad(f []string) vlib.Res {
 		for p := 0; p < 3; p++ {
 			names[p] = fmt.Sprintf("pos.gone.%s-%c.zt.", a["nm"], markers[p])
 		}
-		s := qspec{name: "pos.gone." + a["nm"] + "-@.zt.", qtype: dns.TypeA, qclass: dns.ClassINET, id: 77, rd: true, cd: cd, edns: true, usz: 1232}
+		// small=1: a DO client over UDP whose buffer (512) is smaller than the signed
+		// proof of a cut — the cut's byte serve must decline to the decoded body
+		s := qspec{name: "pos.gone." + a["nm"] + "-@.zt.", qtype: dns.TypeA, qclass: dns.ClassINET, id: 77, rd: true, cd: cd, edns: true, usz: 4096,
+			do: a["do"] == "1"}
+		if a["small"] == "1" {
+			s.usz = 512
+		}
 		if a["ex"] == "1" {
 			for p := 0; p < 3; p++ {
 				rawSettled(s.build(markers[p], nil, nil), remoteFor(p, "tcp", false, 60000+n))
@@ -602,7 +675,30 @@ func facts() map[string]any {
 		}
 	}
 	ec := edns.VerifC05Consts()
+	lastLabels := map[string]bool{}
+	for _, z := range as112.VerifC05DefaultZones() {
+		ls := dns.SplitDomainName(z)
+		if len(ls) > 0 {
+			lastLabels[strings.ToLower(ls[len(ls)-1])] = true
+		} else {
+			lastLabels["."] = true
+		}
+	}
+	var tlds []string
+	for l := range lastLabels {
+		tlds = append(tlds, l)
+	}
+	sort.Strings(tlds)
+	var recomposable []int
+	for t := 0; t < 65536; t++ {
+		if cache.VerifC05WireRecomposable(uint16(t)) {
+			recomposable = append(recomposable, t)
+		}
+	}
 	return map[string]any{
+		"as112_zone_last_labels":  tlds,
+		"wire_recomposable_types": recomposable,
+		"minMsgSizeLib":           dns.MinMsgSize, "maxMsgSizeLib": dns.MaxMsgSize,
 		"applyReply_single_bits": bits,
 		"applyReply_single_bits_op15_rd_cd": bitsSet,
 		"applyReply_opcodes":     opc,
